@@ -34,6 +34,10 @@ type channelBroker struct {
 	// get funneled into for handling
 	msgChan chan *uasc.MessageBody
 	logger  Logger
+
+	// validateSecurity refuses OpenSecureChannel requests whose security
+	// policy and mode the server has not enabled.
+	validateSecurity uasc.SecurityValidator
 }
 
 func newChannelBroker(logger Logger) *channelBroker {
@@ -56,6 +60,7 @@ func (c *channelBroker) RegisterConn(ctx context.Context, conn *uacp.Conn, local
 	cfg := defaultChannelConfig()
 	cfg.Certificate = localCert
 	cfg.LocalKey = localKey
+	cfg.ValidateSecurity = c.validateSecurity
 
 	c.mu.Lock()
 	c.secureChannelID++
